@@ -63,14 +63,15 @@ func NewDataReaderAt(r io.ReaderAt, sz int) *segment.Data {
 
 // Read fault kinds.
 const (
-	RFClosed = iota // os.ErrClosed, nothing read
-	RFEIO           // EIO, nothing read
-	RFShort         // half of the bytes, io.ErrUnexpectedEOF
-	RFEINTR         // EINTR in a *PathError, nothing read: an error that invites an unbounded retry loop
+	RFClosed   = iota // os.ErrClosed, nothing read
+	RFEIO             // EIO, nothing read
+	RFShort           // half of the bytes, io.ErrUnexpectedEOF
+	RFEINTR           // EINTR in a *PathError, nothing read: an error that invites an unbounded retry loop
+	RFShortEOF        // half of the bytes and io.EOF: what ReadAt reports when the file ends early (a file truncated behind the segment's back)
 	NumReadFaultKinds
 )
 
-var ReadFaultNames = []string{"closed", "eio", "short", "eintr"}
+var ReadFaultNames = []string{"closed", "eio", "short", "eintr", "short-eof"}
 
 // LivelockPanic is raised by a SimReaderAt whose per-call read budget is
 // exhausted: the code under test keeps reading (typically retrying a failing
@@ -178,6 +179,12 @@ func (r *SimReaderAt) ReadAt(p []byte, off int64) (int, error) {
 			return 0, syscall.EIO
 		case RFEINTR:
 			return 0, &os.PathError{Op: "read", Path: "simdisk", Err: syscall.EINTR}
+		case RFShortEOF:
+			n := 0
+			if off >= 0 && off < int64(len(r.img)) {
+				n = copy(p[:len(p)/2], r.img[off:])
+			}
+			return n, io.EOF
 		default:
 			n := 0
 			if off >= 0 && off < int64(len(r.img)) {
